@@ -13,7 +13,7 @@ import (
 // L (jitter-buffer structure, C18) — DESIGN.md §3 I, J, L.
 
 func init() {
-	registerEngine("I", []string{"I1", "I2", "I3"}, runEngineI)
+	registerEngine("I", []string{"I1", "I2", "I3", "I4"}, runEngineI)
 	registerEngine("J", []string{"J1", "J2"}, runEngineJ)
 	registerEngine("L", []string{"L1", "L2", "L3", "L4", "L5"}, runEngineL)
 }
@@ -204,6 +204,39 @@ func runEngineI(p *Prog, o *obls) {
 		} else {
 			o.ok("I2", key, pos, "at most one allocation on every path, dominating SetExtension")
 		}
+		// I4: a number that was allocated leaves on the packet it was allocated for. From every allocation, every path to
+		// a downstream write passes a SetExtension: a packet forwarded without the extension after the counter was
+		// advanced (a pass-through test moved behind the allocation) leaves a gap in the run the receiver sees.
+		{
+			isSet := func(in ssa.Instruction) bool {
+				for _, se := range setExt {
+					if in == ssa.Instruction(se) {
+						return true
+					}
+				}
+				return false
+			}
+			var p4 []string
+			nW := 0
+			for _, a := range allocs {
+				fnA := a.Parent()
+				instrsOf(fnA, func(in ssa.Instruction) {
+					w, ok := in.(*ssa.Call)
+					if !ok || !isChainWrite(p, w) {
+						return
+					}
+					nW++
+					if pathAvoiding(a, w, isSet) {
+						p4 = append(p4, fmt.Sprintf("the downstream write at %s can be reached from the allocation at %s without a SetExtension in between: the number is consumed but leaves on no packet (a gap)", p.instrPos(w), p.instrPos(a)))
+					}
+				})
+			}
+			if len(p4) > 0 {
+				o.bad("I4", key, pos, strings.Join(dedupe(p4), "; "))
+			} else if nW > 0 {
+				o.ok("I4", key, pos, fmt.Sprintf("%d downstream write(s) reachable from an allocation, each behind a SetExtension", nW))
+			}
+		}
 		// I3: the Bind method hands its writer back unwrapped only when the extension was not negotiated. Every return
 		// of the writer parameter itself is control dependent on nothing but tests of the negotiated id against 0.
 		if bind := c.Owner; bind != nil && c.nextSource() != nil {
@@ -236,6 +269,46 @@ func runEngineI(p *Prog, o *obls) {
 	if n == 0 {
 		o.undecided("I1", "no-closure", "-", "anchor unresolved: no writer closure sets a header extension")
 	}
+}
+
+// pathAvoiding: control can flow from just after `from` to `to` without executing an instruction for which stop holds.
+func pathAvoiding(from, to ssa.Instruction, stop func(ssa.Instruction) bool) bool {
+	fb := from.Block()
+	scan := func(b *ssa.BasicBlock, start int) (reached, blocked bool) {
+		for i := start; i < len(b.Instrs); i++ {
+			if b.Instrs[i] == to {
+				return true, false
+			}
+			if stop(b.Instrs[i]) {
+				return false, true
+			}
+		}
+		return false, false
+	}
+	if r, blk := scan(fb, instrIndex(from)+1); r {
+		return true
+	} else if blk {
+		return false
+	}
+	seen := map[*ssa.BasicBlock]bool{}
+	work := append([]*ssa.BasicBlock{}, fb.Succs...)
+	for len(work) > 0 {
+		b := work[len(work)-1]
+		work = work[:len(work)-1]
+		if seen[b] {
+			continue
+		}
+		seen[b] = true
+		r, blk := scan(b, 0)
+		if r {
+			return true
+		}
+		if blk {
+			continue
+		}
+		work = append(work, b.Succs...)
+	}
+	return false
 }
 
 // i3NotNegotiatedTest: cond compares the negotiated extension id with the constant 0 (either polarity), or is part of
@@ -568,8 +641,35 @@ func runEngineL(p *Prog, o *obls) {
 		}
 		// besides the listed roots, every field that points into a linked structure (pointer to a struct that points
 		// to itself) keeps old nodes reachable: a cached tail or cursor must be reset as well
-		roots := append([]string{}, cs.roots...)
+		var roots []string
 		if st, ok := t.Underlying().(*types.Struct); ok {
+			have := map[string]bool{}
+			for i := 0; i < st.NumFields(); i++ {
+				have[cFieldName(st.Field(i))] = true
+			}
+			for _, r := range cs.roots {
+				if have[r] {
+					roots = append(roots, r)
+				} else {
+					o.note("L3", cs.typ+".Clear:"+r, p.Pos(fn.Pos()), "the listed root field no longer exists (the container was replaced); the roots derived from the type's fields are checked instead")
+				}
+			}
+			// a slice or map of the cleared type holds the buffered elements just as a list head does
+			for i := 0; i < st.NumFields(); i++ {
+				switch st.Field(i).Type().Underlying().(type) {
+				case *types.Slice, *types.Map:
+					name := cFieldName(st.Field(i))
+					dup := false
+					for _, r := range roots {
+						if r == name {
+							dup = true
+						}
+					}
+					if !dup && len(cs.roots) > 0 && !have[cs.roots[0]] {
+						roots = append(roots, name)
+					}
+				}
+			}
 			for i := 0; i < st.NumFields(); i++ {
 				pt, ok := st.Field(i).Type().(*types.Pointer)
 				if !ok {
@@ -666,6 +766,8 @@ func l1l2(p *Prog, o *obls, fn *ssa.Function, gs gateSpec) {
 		return out
 	}
 	qcalls := qcallsOf(fn)
+	var orig *ssa.Function   // the gated method, when the work was delegated to a helper
+	var helperCall *ssa.Call // its call of the helper
 	if len(qcalls) == 0 {
 		// the gated work moved into one helper on the same object (popLocked): analyse the helper
 		var helpers []*ssa.Function
@@ -683,8 +785,14 @@ func l1l2(p *Prog, o *obls, fn *ssa.Function, gs gateSpec) {
 			}
 		})
 		if len(helpers) == 1 {
+			orig = fn
 			fn = helpers[0]
 			qcalls = qcallsOf(fn)
+			instrsOf(orig, func(in ssa.Instruction) {
+				if c, ok := in.(*ssa.Call); ok && c.Call.StaticCallee() == fn {
+					helperCall = c
+				}
+			})
 		}
 	}
 	if len(qcalls) == 0 {
@@ -694,7 +802,12 @@ func l1l2(p *Prog, o *obls, fn *ssa.Function, gs gateSpec) {
 	var problems []string
 	for _, qc := range qcalls {
 		gated := false
-		for _, f := range dominatingFactsInstr(qc) {
+		facts := dominatingFactsInstr(qc)
+		if helperCall != nil {
+			// the state test may have stayed in the gated method, in front of the call of the helper
+			facts = append(facts, dominatingFactsInstr(helperCall)...)
+		}
+		for _, f := range facts {
 			f = normFact(f)
 			bo, ok := f.cond.(*ssa.BinOp)
 			if !ok || (bo.Op != token.NEQ && bo.Op != token.EQL) {
@@ -725,18 +838,24 @@ func l1l2(p *Prog, o *obls, fn *ssa.Function, gs gateSpec) {
 	}
 	// the refusing branch returns an error
 	refuses := false
-	for _, b := range fn.Blocks {
-		ret, ok := b.Instrs[len(b.Instrs)-1].(*ssa.Return)
-		if !ok || len(ret.Results) < 2 {
-			continue
-		}
-		for _, f := range dominatingFacts(b) {
-			f = normFact(f)
-			if bo, ok := f.cond.(*ssa.BinOp); ok {
-				if u, ok := bo.X.(*ssa.UnOp); ok && u.Op == token.MUL {
-					if fa, ok := u.X.(*ssa.FieldAddr); ok && fieldKeyAddr(fa) == stateKey && (bo.Op == token.NEQ) == f.truth {
-						if p.nonNilError(ret.Results[len(ret.Results)-1], b) {
-							refuses = true
+	refFns := []*ssa.Function{fn}
+	if orig != nil {
+		refFns = append(refFns, orig)
+	}
+	for _, rf := range refFns {
+		for _, b := range rf.Blocks {
+			ret, ok := b.Instrs[len(b.Instrs)-1].(*ssa.Return)
+			if !ok || len(ret.Results) < 2 {
+				continue
+			}
+			for _, f := range dominatingFacts(b) {
+				f = normFact(f)
+				if bo, ok := f.cond.(*ssa.BinOp); ok {
+					if u, ok := bo.X.(*ssa.UnOp); ok && u.Op == token.MUL {
+						if fa, ok := u.X.(*ssa.FieldAddr); ok && fieldKeyAddr(fa) == stateKey && (bo.Op == token.NEQ) == f.truth {
+							if p.nonNilError(ret.Results[len(ret.Results)-1], b) {
+								refuses = true
+							}
 						}
 					}
 				}
